@@ -1323,7 +1323,8 @@ def check_C10(ctx):
                         "(its own XXH3-128); format facts the document does not give were read from the source and are listed in its README",
                         "the images are those of the in-memory backend at the return of a durable commit(), of compact() and of a clean close, "
                         "sampled evenly (quick: 10 per history)",
-                        "the order inside inline multimap value sets is not decoded; subtree value sets are"]
+                        "inline multimap value sets are decoded too (their order is checked like the keys of a leaf); their own "
+                        "bytes are covered by the checksum of the leaf that holds them"]
     return dict(level="exploration", exhaustive=False,
                 rule="random histories (tables of 6 key/value type pairs, multimaps with inline and subtree value sets, savepoints, catalog "
                      "operations, compaction, aborts, page sizes 512/1024/4096, one or several regions); after every durable commit, compaction "
@@ -1331,8 +1332,9 @@ def check_C10(ctx):
                      "image: slot checksum; per tree (data and system catalogs, every table, every multimap subtree, allocator state and "
                      "pending-free tables) keys strictly increasing under the key type's order, routing keys >= left subtree and < right "
                      "subtree, child depth = parent depth + 1, all leaves at one depth, stored count = entries present, stored checksum of every "
-                     "page (as recorded by its parent / root record) = recomputed; no page referenced twice and no overlapping extents. "
-                     "evaluations = pages judged; distinct_nontrivial = images. Eight damaged copies of a real image (one per clause) must be "
+                     "page (as recorded by its parent / root record) = recomputed; values of inline multimap collections strictly increasing; "
+                     "no page referenced twice and no overlapping extents. "
+                     "evaluations = pages judged; distinct_nontrivial = images. Nine damaged copies of a real image (one per clause) must be "
                      "rejected in every run")
 
 
